@@ -123,4 +123,27 @@ theorem fullInv_of_binv {w : World} (h1 : BInv1 w) (h2 : S3.BInv w) (hsz : w.pro
 theorem built_initAll {w : World} (h : Built w) (hsz : w.procs.size < 2 ^ 31) : InitAll w :=
   ⟨fullInv_of_binv (built_binv1 h) h.binv hsz, (h.binv.initOk hsz).1, (h.binv.initOk hsz).2⟩
 
+/-- a loader-built scenario for the non-vacuity examples of `end_silences`: process 0 takes the resource and holds 5;
+    process 1 queues up on the resource's guard at t = 1; process 2 waits for the end of process 1 from t = 2;
+    at t = 5 process 0 stops process 1 (value 7) — which ends while queued on a guard and while being waited for -/
+def endScen : World :=
+  autostart (autostart (autostart
+    (addProc (addProc (addProc (addRes {}) 0
+      #[(.acquire 0, "acquire"), (.hold 5, "hold"), (.stop 1 7, "stop"), (.release 0, "release")]) 0
+      #[(.hold 1, "hold"), (.acquire 0, "acquire"), (.exit 0, "exit")]) 0
+      #[(.hold 2, "hold"), (.waitProc 1, "wait"), (.exit 4, "exit")]) 0) 1) 2
+
+theorem endScen_built : Built endScen := by
+  unfold endScen
+  refine Built.start _ (Built.start _ (Built.start _ (Built.proc _ _ (Built.proc _ _ (Built.proc _ _
+    (Built.res Built.empty) ?_) ?_) ?_)))
+  all_goals
+    intro i c t h
+    match i with
+    | 0 => simp at h; rw [← h.1]; trivial
+    | 1 => simp at h; rw [← h.1]; trivial
+    | 2 => simp at h; rw [← h.1]; trivial
+    | 3 => simp at h; try (rw [← h.1]; trivial)
+    | n + 4 => simp at h
+
 end CimbaModel.Sim
